@@ -276,6 +276,62 @@ let run_upown (parts : string list) : string =
     Printf.sprintf "close=ok close2=ok pre=%s infl=%s after=%s legs=%s udp=%d tcp=%d srv=%d || spec=%s"
       pre (if infl = [] then "-" else String.concat "," infl) after legs nu nt nt spec
 
+(* ---- startcfg: configuration errors are reported and nothing acquired on the way is left (Router/StartupInit.v) ----
+   case:   <id> cfg=<item>;<item>;... [mode=bin]     (items: see harness/cmd/implrun/c18start.go)
+   result: res=<ERR|OK> sock=<n> fd=0 gor=<0|1> *)
+let si_fault_of (s : string) : si_fault =
+  match s with
+  | "inuse" -> SfInUse | "proto" -> SfProto | "badaddr" -> SfBadAddr | "nocert" -> SfNoCert
+  | "certonly" -> SfCertOnly | "keyonly" -> SfKeyOnly | "certmissing" -> SfCertMissing
+  | "certgarbage" -> SfCertGarbage | "mismatch" -> SfMismatch | "camissing" -> SfCaMissing
+  | "cagarbage" -> SfCaGarbage | "vccnoca" -> SfVccNoCa | "notag" -> SfNoTag | "duptag" -> SfDupTag
+  | "noaddr" -> SfNoAddr | "scheme" -> SfScheme | "badtag" -> SfBadTag | "nofile" -> SfNoFile
+  | "baddata" -> SfBadData | "noset" -> SfNoSet | "noup" -> SfNoUp | "nomarker" -> SfNoMarker
+  | "badmarker" -> SfBadMarker | "badredis" -> SfBadRedis
+  | _ -> failwith ("startcfg: unknown fault " ^ s)
+
+let si_item_of (it : string) : si_kind * si_fault option =
+  let body, fault = match String.index_opt it '!' with
+    | Some i -> String.sub it 0 i, Some (String.sub it (i + 1) (String.length it - i - 1))
+    | None -> it, None in
+  let comp, kind = match String.index_opt body ':' with
+    | Some i -> String.sub body 0 i, String.sub body (i + 1) (String.length body - i - 1)
+    | None -> body, "" in
+  let has sub = let n = String.length sub and m = String.length kind in
+    let rec go i = i + n <= m && (String.sub kind i n = sub || go (i + 1)) in go 0 in
+  let k = match comp with
+    | "m" -> SiKMetrics
+    | "u" -> SiKUp (match kind with "quic" | "doq" | "h3" -> SiUpSock | _ -> SiUpLazy)
+    | "d" -> SiKSet
+    | "r" -> SiKRule
+    | "c" -> SiKCache (has "mem", fault = Some "badredis",
+                       has "marker" || fault = Some "nomarker" || fault = Some "badmarker")
+    | "s" -> SiKSrv (match kind with
+        | "udp" -> SiSrvUdp | "tcp" -> SiSrvTcp | "gnet" -> SiSrvGnet | "http" -> SiSrvHttp
+        | "fasthttp" -> SiSrvFast | "tls" -> SiSrvTls | "https" -> SiSrvHttps | "quic" -> SiSrvQuic
+        | _ -> failwith ("startcfg: unknown listener kind " ^ kind))
+    | _ -> failwith ("startcfg: unknown item " ^ it) in
+  (k, match fault with Some f -> Some (si_fault_of f) | None -> None)
+
+let run_startcfg (parts : string list) : string =
+  let f = fields parts in
+  let items = List.map si_item_of (List.filter (fun s -> s <> "") (String.split_on_char ';' (fld f "cfg"))) in
+  let pinned = (fld_opt f "pinned" = Some "1") in
+  let ((err, socks), gor) = si_observe pinned items in
+  let socks = int_of_nat socks in
+  let safe = List.for_all (fun (k, _) -> si_safeb (si_prog_of pinned k)) items in
+  let must_err = (si_first_fault items O <> None) in
+  let spec_bits =
+    (if socks = 0 && not gor then [] else ["acquired-resource-neither-registered-nor-released"])
+    @ (if safe then [] else ["unsafe-init-program"])
+    @ (if err = must_err then [] else ["error-not-reported"]) in
+  let spec = if spec_bits = [] then "ok" else "FAIL:" ^ String.concat "+" spec_bits in
+  if fld_opt f "mode" = Some "bin" then
+    Printf.sprintf "res=%s sock=- fd=- gor=- || spec=%s" (if err then "ERR" else "OK") spec
+  else
+    Printf.sprintf "res=%s sock=%d fd=0 gor=%d || spec=%s" (if err then "ERR" else "OK") socks (if gor then 1 else 0) spec
+
 let () = register "upclose" run_upclose
+let () = register "startcfg" run_startcfg
 let () = register "upown" run_upown
 let () = register "startup" run_startup
